@@ -251,6 +251,43 @@ def rule_e(R, ctx, rid="C08.e"):
     R.floor(rid, "advance sites that reach the gap decision without a sort", n, 1)
 
 
+def rule_h(R, ctx, rid="C08.h"):
+    from ylib.formula import Formulas, truth_check, fshow, atoms_of
+    Y = ctx.yrs
+    R.rule(rid, "R-GUARD nested cursor: IntoBlocks::next (the per-input block stream of merge_updates) moves on to the next "
+                "client only when the current client's block queue is exhausted — path formula of `current_client.next()` implies "
+                "`current_block is None` or `current_block.next() is None`; a skipped block (an ignorable Skip) stays on the "
+                "same client, otherwise every block after the first Skip of a client is dropped from the merge")
+    fn = Y.fn("<yrs::update::IntoBlocks as std::iter::Iterator>::next")
+    v = FnView(fn)
+    fm = Formulas(fn, simp_deep)
+    outer = [c for c in fn.calls_to("re:^<std::vec::IntoIter<.*> as std::iter::Iterator>::next$")
+             if field_path(simp_deep(v.arg(c, 0)))[-1:] == ["current_client"]]
+    R.floor(rid, "current_client.next() in IntoBlocks::next", len(outer), 1)
+
+    def classify(k, t):
+        t = simp_deep(t) if isinstance(t, tuple) else t
+        if not k.endswith(" is Some") and not k.endswith(" is None"):
+            return None
+        neg = "!" if k.endswith(" is None") else ""
+        if isinstance(t, tuple) and t[0] == "field" and field_path(t)[-1:] == ["current_block"]:
+            return neg + "HAS_QUEUE"
+        if isinstance(t, tuple) and t[0] == "call" and re.search(r"vec_deque::IntoIter<.*Iterator>::next$", t[1]) \
+                and field_path(simp_deep(t[2][0]))[-1:] == ["current_block"]:
+            return neg + "HAS_BLOCK"
+        return None
+
+    for cs, site in ordinal_sites(outer):
+        f = fm.reach(cs.bb)
+        names = {classify(k, t) for k, t in atoms_of(f).items()}
+        ok, cex, keys = truth_check(f, classify, lambda e: False if (e.get("HAS_QUEUE") and e.get("HAS_BLOCK")) else None, max_atoms=12)
+        have = {"HAS_QUEUE", "HAS_BLOCK"} <= {n.lstrip("!") for n in names if n}
+        R.ob(rid, fn, site, ok and have,
+             "next client is taken only when the current queue is absent or exhausted: %s" % fshow(f) if ok and have else
+             "next client is taken although the current client's queue still yielded a block: %s" % (cex if have else "queue tests missing from " + fshow(f)),
+             cs.loc())
+
+
 def check(ctx, R):
     from . import wire_rules
     R.run("C08.a", rule_a, ctx)
@@ -263,4 +300,5 @@ def check(ctx, R):
     from . import c06
     R.run("C08.f", lambda R, c: c06.rule_g(R, c, "C08.f", only=("yrs::update::Update::encode_diff",)), ctx)
     R.run("C08.g", lambda R, c: c06.rule_h(R, c, "C08.g"), ctx)
+    R.run("C08.h", rule_h, ctx)
     return {}
